@@ -214,24 +214,30 @@ def compare_corpus(ctx, progs, pname, context, envs_raw, procs):
 
 
 def selftest(envs):
-    """binding self-test: a perturbed expectation and a perturbed token string must both be flagged"""
-    from pymoca import ast  # noqa: F401
+    """binding self-test on hand-built ast nodes (independent of the parser under test): a perturbed expectation
+    and a differently bracketed tree must both be flagged, the right tree with the right expectation must not"""
+    from pymoca import ast
+
+    def ref(n):
+        return ast.ComponentRef(name=n)
+
+    def sub(x, y):
+        return ast.Expression(operator="-", operands=[x, y])
     p = {"kind": "expr", "toks": ["a", "-", "b", "-", "c"], "pm": "min", "shape": ["add", "add", "var"],
          "vals": [[0, -6, 1]] + [[2, 0, 0]] * 4}
-    node = ir_expr.extract(ir_expr.parse_checked_in(ir_expr.embed([text_of(p)])), 1)[0]
-    good, _ = judge(p, node, envs)
-    p2 = dict(p, vals=[[0, -5, 1]] + [[2, 0, 0]] * 4)
-    bad1, _ = judge(p2, node, envs)
-    node3 = ir_expr.extract(ir_expr.parse_checked_in(ir_expr.embed(["a - ( b - c )"])), 1)[0]
-    bad2, _ = judge(p, node3, envs)
+    left = sub(sub(ref("a"), ref("b")), ref("c"))
+    right = sub(ref("a"), sub(ref("b"), ref("c")))
+    good, _ = judge(p, left, envs)
+    bad1, _ = judge(dict(p, vals=[[0, -5, 1]] + [[2, 0, 0]] * 4), left, envs)
+    bad2, _ = judge(p, right, envs)
     lit = {"kind": "num", "chars": ["2", "5", "e", "-", "1"], "expect": {"int": False, "val": [0, 5, 2]}}
-    lnode = ir_expr.extract(ir_expr.parse_checked_in(ir_expr.embed(["25e-1"])), 1)[0]
-    good2, _ = judge(lit, lnode, envs)
-    bad3, _ = judge(dict(lit, expect={"int": True, "val": [0, 5, 2]}), lnode, envs)
+    good2, _ = judge(lit, ast.Primary(value=2.5), envs)
+    bad3, _ = judge(lit, ast.Primary(value=25), envs)
+    bad4, _ = judge(dict(lit, expect={"int": True, "val": [0, 5, 2]}), ast.Primary(value=2.5), envs)
     if good is not None or good2 is not None:
-        raise MachineryError("binding self-test: a correct expectation was flagged: %s %s (is environment 1 still a=2,b=3,c=5?)" % (good, good2))
-    if bad1 is None or bad2 is None or bad3 is None:
-        raise MachineryError("binding self-test: a corrupted expectation / token string was not flagged - comparison is vacuous")
+        raise MachineryError("binding self-test: a correct observation was flagged: %s %s (is environment 1 still a=2,b=3,c=5?)" % (good, good2))
+    if bad1 is None or bad2 is None or bad3 is None or bad4 is None:
+        raise MachineryError("binding self-test: a corrupted expectation / observation was not flagged - comparison is vacuous")
 
 
 def run(ctx):
